@@ -21,7 +21,8 @@ THEOREMS = ['Lessm.Builtins.C17_round_near', 'Lessm.Builtins.C17_round_tie', 'Le
             'Lessm.Builtins.C17_apply', 'Lessm.Builtins.C17_incdec', 'Lessm.Builtins.C17_passthrough']
 FNS = ['round', 'ceil', 'floor', 'increment', 'decrement', 'percentage']
 UNITS = ['', 'px', 'em', '%', 's']
-OFFS = ['0', '0.001', '0.25', '0.49', '0.5', '0.51', '0.75', '0.999']
+# (0.00001 / 0.00005: magnitudes whose repr() is in exponent form when they stand alone - seeded C17-3)
+OFFS = ['0', '0.00001', '0.00005', '0.001', '0.25', '0.49', '0.5', '0.51', '0.75', '0.999']
 NUM_RE = re.compile(r'^(-?(?:\d+\.?\d*|\.\d+)(?:e[-+]?\d+)?)([a-z%]*)$')
 
 
@@ -94,7 +95,9 @@ def render(i, case):
 UNKNOWN_NAMES = ['foo', 'translate', 'cubic-bezier', 'calc-ish', 'opacity', 'process', 'tokens', 'steps', 'my_fn', 'x1', 'operate', 'fmt', 'parse']
 ARG_ATOMS = [('1px', '1px'), ('2', '2'), ('-3.5em', '-3.5em'), ('"a b"', '"a b"'), ("'q;r'", "'q;r'"), ('#ffffff', '#ffffff'),
              ('#FFF', '#ffffff'), ('solid', 'solid'), ('1px + 1', '2px'), ('2 * 3', '6'), ('(4em - 1)', '3em'),
-             ('bar(2*3)', 'bar(6)'), ('50%', '50%'), ('0.5', '0.5'), ('@u', '7px'), ('10 / 4', '2.5')]
+             ('bar(2*3)', 'bar(6)'), ('50%', '50%'), ('0.5', '0.5'), ('@u', '7px'), ('10 / 4', '2.5'),
+             # blanks before a comma / parenthesis inside a string must survive (seeded C17-4: the passed-through text was post-processed)
+             ('"a ,b"', '"a ,b"'), ("'x ,'", "'x ,'"), ('"(a )"', '"(a )"'), ('"  "', '"  "'), ('"f( 1 ,2 )"', '"f( 1 ,2 )"')]
 
 
 def run(tier):
@@ -103,7 +106,7 @@ def run(tier):
     build = C.lean_build(PROP)
     missing = chk.set_proof(build, THEOREMS, 'cd lean && lake build Lessm.Props.C17 Lessm.Audit.C17 && lake env lean Lessm/Audit/C17.lean')
     chk.cov['trusted_base'] = C.TRUSTED_BASE
-    chk.cov['rule'] = ('full grid k+{0,±.001,±.25,±.49,±.5,±.51,±.75,±.999}, k=-20..20 x 6 built-ins x units {none,px,em,%,s} x '
+    chk.cov['rule'] = ('full grid k+{0,±.00001,±.00005,±.001,±.25,±.49,±.5,±.51,±.75,±.999}, k=-20..20 x 6 built-ins x units {none,px,em,%,s} x '
                        '{literal, variable, expression} (thorough: all; quick: all values x all functions, unit/form rotated); '
                        'unknown-function calls with 0-4 arguments from the value grammar. distinct by (fn, lexeme, form); '
                        'non-trivial = non-integral or negative argument, or an unknown function with >= 2 arguments')
